@@ -147,6 +147,7 @@ Qed.
 Print Assumptions value_chunks_roundtrip_nonvacuous.
 
 (** ** BabyStepGiantStep (elgamal/secret.rs) over any commutative group with decidable equality *)
+From Coq Require Import Lia.
 From CB Require Import Crypto.Bsgs Crypto.BsgsProofs Crypto.ElGamalBsgs.
 
 Section C12_Bsgs.
@@ -175,6 +176,18 @@ Section C12_Bsgs.
     discrete_log G gadd geqb fuel (bsgs_new G gzero gadd gopp base m) (nmul G gzero gadd x base) = DlFuel.
   Proof. intros m x fuel Hm Hle. eapply bsgs_needs_steps; eassumption. Qed.
   Print Assumptions bsgs_giant_steps_exact.
+
+  (** Serial / Deserial of a table of ANY size (in particular above the 2^16 preallocation cap of
+      [deserial]): all m entries are read back, and a stream with fewer than m entries is refused *)
+  Theorem bsgs_serial_roundtrip : forall m, 0 < m -> m <= bound ->
+    bsgs_deserial G geqb (bsgs_serial G (bsgs_new G gzero gadd gopp base m)) = Some (bsgs_new G gzero gadd gopp base m).
+  Proof. intros m Hm Hle. eapply bsgs_deserial_serial; eassumption. Qed.
+  Print Assumptions bsgs_serial_roundtrip.
+
+  Theorem bsgs_deserial_never_truncates : forall m (inv : G) (stream : list (G * N)),
+    (length stream < N.to_nat m)%nat -> bsgs_deserial G geqb (m, inv, stream) = None.
+  Proof. intros m inv stream Hl. eapply bsgs_deserial_short_stream with (bound := m); try eassumption; lia. Qed.
+  Print Assumptions bsgs_deserial_never_truncates.
 End C12_Bsgs.
 
 Example bsgs_table_larger_than_order_refuted :
